@@ -26,22 +26,36 @@ open RotoV
 inductive Assoc | Left | Right | Not
   deriving DecidableEq, Repr, Inhabited
 
+/-- The postfix forms of `Parser::access`'s loop: `?`, an argument list
+    `( … )` (number `n`: the arguments are expressions of their own, parsed by
+    `Parser::args`), and `.name` (`Token::Period` + identifier number `n`).
+    A method call `x.f(a)` is `field` followed by `call`. -/
+inductive Post
+  | try_
+  | call (n : Nat)
+  | field (n : Nat)
+  deriving DecidableEq, Repr, Inhabited
+
 /-- Tokens of an operator expression. `op .Sub` is `Token::Hyphen`, which is
     both the binary minus and the prefix negation; `bang` is `Token::Bang`;
-    `atom n` stands for any token sequence `Parser::access` parses to one
-    operand (identifier, literal, parenthesised expression …). -/
+    `atom n` stands for any token sequence `Parser::atom` parses to one
+    atom (identifier, literal of any spelling, parenthesised expression …);
+    `post p` is one postfix form (`?`, an argument list, `.name`). -/
 inductive Tok
   | atom (n : Nat)
   | bang
   | op (b : BinOp)
+  | post (p : Post)
   deriving DecidableEq, Repr, Inhabited
 
-/-- Expression trees (`ast::Expr` restricted to operators). -/
+/-- Expression trees (`ast::Expr` restricted to operators and the postfix
+    forms: `Expr::QuestionMark`, `Expr::FunctionCall`, `Expr::Access`). -/
 inductive Tree
   | leaf (n : Nat)
   | not (t : Tree)
   | neg (t : Tree)
   | bin (o : BinOp) (l r : Tree)
+  | post (p : Post) (t : Tree)
   deriving DecidableEq, Repr, Inhabited
 
 /-- Outcome of a parsing function: a tree and the unconsumed tokens, or one
@@ -58,7 +72,21 @@ inductive PRes
   | fuel
   deriving DecidableEq, Repr, Inhabited
 
-/-- `Parser::negation`: `('!' | '-')* Access`. -/
+/-- the `loop { … }` of `Parser::access`: every `?`, argument list and
+    `.name` that follows is applied to the expression parsed so far -/
+def accessLoop (e : Tree) : List Tok → Tree × List Tok
+  | .post p :: rest => accessLoop (.post p e) rest
+  | rest => (e, rest)
+
+/-- `Parser::access`: `Atom ('?' | Args | '.' Ident)*` -/
+def access : List Tok → PRes
+  | .atom n :: rest => let r := accessLoop (.leaf n) rest; .ok r.1 r.2
+  | _ => .unexpected
+
+/-- `Parser::negation`: `('!' | '-')* Access`. After a prefix operator the
+    function calls ITSELF (so the operator applies to everything `access`
+    returns, postfix forms included); only without a prefix operator does it
+    call `access`. -/
 def negation : List Tok → PRes
   | .bang :: rest =>
     match negation rest with
@@ -68,8 +96,7 @@ def negation : List Tok → PRes
     match negation rest with
     | .ok e r => .ok (.neg e) r
     | e => e
-  | .atom n :: rest => .ok (.leaf n) rest
-  | _ => .unexpected
+  | toks => access toks
 
 /-- `Parser::peek_binop` -/
 def peekBinop : List Tok → Option BinOp
@@ -127,7 +154,8 @@ Logical    ::= Comparison ( ('&&' Comparison)+ | ('||' Comparison)+ )?
 Comparison ::= Sum ( ('=='|'!='|'<'|'<='|'>'|'>=') Sum )?
 Sum        ::= Product ( ('+'|'-') Product )*          -- left associative
 Product    ::= Unary ( ('*'|'/'|'%') Unary )*          -- left associative
-Unary      ::= ('!' | '-')* Atom
+Unary      ::= ('!' | '-')* Access
+Access     ::= Atom ('?' | Args | '.' Ident)*
 ```
 -/
 
@@ -153,18 +181,32 @@ def docRel (a b : BinOp) : Assoc :=
 
 inductive UnOp | not | neg deriving DecidableEq, Repr, Inhabited
 
-/-- an operand: prefix operators (outermost first) applied to an atom -/
+/-- an operand: prefix operators (outermost first) applied to an atom that is
+    followed by postfix forms (innermost = leftmost first) -/
 structure Operand where
   pre : List UnOp
   atom : Nat
+  post : List Post
   deriving DecidableEq, Repr, Inhabited
 
 def UnOp.apply : UnOp → Tree → Tree
   | .not, t => .not t
   | .neg, t => .neg t
 
-/-- `Unary`: prefix chains bind tighter than every binary operator -/
-def Operand.tree (x : Operand) : Tree := x.pre.foldr UnOp.apply (.leaf x.atom)
+/-- postfix forms applied to an expression, left to right -/
+def accessTreeOn (e : Tree) (post : List Post) : Tree :=
+  post.foldl (fun t p => .post p t) e
+
+/-- `Access`: the postfix forms apply to the atom, left to right -/
+def accessTree (atom : Nat) (post : List Post) : Tree := accessTreeOn (.leaf atom) post
+
+def Tree.isPost : Tree → Bool
+  | .post _ _ => true
+  | _ => false
+
+/-- `Unary`: prefix chains bind tighter than every binary operator and LOOSER
+    than every postfix form: they apply to the whole `Access` -/
+def Operand.tree (x : Operand) : Tree := x.pre.foldr UnOp.apply (accessTree x.atom x.post)
 
 abbrev Tail := List (BinOp × Operand)
 
@@ -213,7 +255,8 @@ def UnOp.tok : UnOp → Tok
   | .not => .bang
   | .neg => .op .Sub
 
-def Operand.toks (x : Operand) : List Tok := x.pre.map UnOp.tok ++ [.atom x.atom]
+def Operand.toks (x : Operand) : List Tok :=
+  x.pre.map UnOp.tok ++ (.atom x.atom :: x.post.map Tok.post)
 
 def renderTail : Tail → List Tok
   | [] => []
@@ -233,10 +276,15 @@ def allBinOps : List BinOp :=
 
 def BinOp.ofName (s : String) : Option BinOp := allBinOps.find? (fun o => BinOp.name o == s)
 
+/-- the parse hook's s-expression; `c<n>` stands for the argument list number
+    `n` (the harness substitutes the arguments' own trees), `f<n>` for a name -/
 def Tree.sexp : Tree → String
   | .leaf n => s!"a{n}"
   | .not t => s!"(Not {t.sexp})"
   | .neg t => s!"(Negate {t.sexp})"
   | .bin o l r => s!"({BinOp.name o} {l.sexp} {r.sexp})"
+  | .post .try_ t => s!"(try {t.sexp})"
+  | .post (.call n) t => s!"(call {t.sexp} c{n})"
+  | .post (.field n) t => s!"(field {t.sexp} f{n})"
 
 end RotoV.Pratt
